@@ -8,6 +8,7 @@ mod gen;
 mod s_perceive;
 mod s_ff;
 mod s_sd;
+mod s_xyz;
 
 fn main() {
     let args: Vec<String> = std::env::args().collect();
@@ -37,6 +38,8 @@ fn main() {
         "perceive" => s_perceive::run(&mut out, seed, &tier),
         "ff" => s_ff::run(&mut out, seed, &tier),
         "sd" => s_sd::run(&mut out, seed, &tier),
+        "xyz-write" => s_xyz::run_write(&mut out, seed, &tier),
+        "xyz-read" => s_xyz::run_read(&mut out, seed, &tier),
         other => { eprintln!("unknown stream {}", other); std::process::exit(2); }
     }
     let _ = rest;
